@@ -16,7 +16,7 @@ func init() {
 		ID: "C10",
 		Explanation: "Decides structural necessary conditions of C10: (R-C10-1) validation first: the Store is constructed only after 'a client is set', 'names parsed without error' and not('no secrets' and 'no lookup'); every declared name is examined for emptiness over the final name list; (R-C10-2) no busy retry: every cycle of the initialisation routine that is not an iteration over a finite collection passes a call of a waiter, itself verified to block in a select on ctx.Done() and time.After(d) of its arguments; " +
 			"(R-C10-3) context observed: from a failed fetch no further fetch and no wait is reached without testing ctx.Err(), whose non-nil edge returns a non-nil error; (R-C10-4) bounded back-off: the wait duration is a loop-carried variable fed only by a positive constant and by a doubling edge-dominated by v < C, hence below 2C <= 10s; " +
-			"(R-C10-5) no re-fetch, success means complete: the fetch is edge-dominated by 'this name's entry is nil', its nil-error edge installs a fresh non-nil entry under the same name before the next iteration, every failing path either returns or increments the missing counter, and nil is returned only under counter == 0; (R-C10-6) with a file-backed client the wait is unreachable and the routine returns an error; (R-C10-8) cached entries are only discarded wholesale when the cache is rejected, never individually at load time (a complete valid cache needs no service); (R-C10-7) no explicit panic or unchecked type assertion in the construction path. (R-C10-9, second half) the cache consulted and written is StoreConfig.Cache for either client kind (C13's R-C13-8); (R-C10-10) struct-tagged names are declared under the names they are applied under (C20's R-C20-2).",
+			"(R-C10-5) no re-fetch, success means complete: the fetch is edge-dominated by 'this name's entry is nil', its nil-error edge installs a fresh non-nil entry under the same name before the next iteration, every failing path either returns or increments the missing counter, and nil is returned only under counter == 0; (R-C10-6) with a file-backed client the wait is unreachable and the routine returns an error; (R-C10-8) cached entries are only discarded wholesale when the cache is rejected, never individually at load time (a complete valid cache needs no service); (R-C10-7) no explicit panic or unchecked type assertion in the construction path. (R-C10-9, second half) the cache consulted and written is StoreConfig.Cache for either client kind (C13's R-C13-8); (R-C10-10) struct-tagged names are declared under the names they are applied under (C20's R-C20-2). (R-C10-10, extended) fields promoted from embedded structs are visited (C20's R-C20-9).",
 		NotDecided:  "Wall-clock promptness; how many rounds a given failure script needs.",
 		Trusted:     append([]string{"time.After(d) fires after d"}, commonTrusted...),
 		Assumptions: []string{"iteration over a map or slice terminates"},
